@@ -737,7 +737,7 @@ def run_persist(shape):
     def body():
         store = Store()
         pio = ProxyIO(store)
-        with bound(F, bmat=sp.bmat, kron=sp.kron, identity=sp.identity, eye=sp.eye, coo_array=sp.coo_array, diags=sp.diags, print=noprint, np=proxy), bound(TR, np=proxy, print=noprint), \
+        with bound(F, bmat=sp.bmat, kron=sp.kron, identity=sp.identity, eye=sp.eye, block_diag=sp.block_diag, coo_matrix=sp.coo_array, csr_matrix=sp.csr_array, csc_matrix=sp.csc_array, csr_array=sp.csr_array, csc_array=sp.csc_array, coo_array=sp.coo_array, diags=sp.diags, print=noprint, np=proxy), bound(TR, np=proxy, print=noprint), \
                 bound(Vm, coo_array=sp.coo_array, print=noprint, np=proxy), bound(IO, sparse=store, np=pio, print=noprint):
             stub = FullSphereStub(n_b, sp, lambda k: bool(SB(pat[k])), lambda p, k: SR(val[p][k]), lambda i: SR(vols[i]), lambda l: sarr(l)) if n_b > 1 else None
             if n_b == 1:
